@@ -49,7 +49,8 @@ JudgeAdapter(e) ==
        [] e.fn = "MakeNumericReturnBool" -> e.out = <<IF e.n = 1 THEN 1 ELSE 0>>
 
 \* ----------------------------------------------------------------- Trampoline
-\* step "countdown": <<n, acc>> -> done iff n = 0, else <<n-1, acc+n>>;  errAt = k: the k-th step (1-based) fails
+\* step "countdown": <<n, acc>> -> done iff n = 0, else <<n-1, acc+n>>;  errAt = k: the k-th step (1-based) fails (errDone: and reports
+\* done in the same breath - an error ends the iteration as an error whatever else the step says)
 RECURSIVE Tramp(_, _, _)
 Tramp(st, k, errAt) ==
   IF k = errAt THEN [kind |-> "err", v |-> <<>>, steps |-> k]
